@@ -103,6 +103,20 @@ def gen_factory(tier):
                     items.append(("q%d:%s" % (qi, tag), r))
             for k, r in enumerate(DIRECT_R):
                 items.append(("direct%d" % k, r))
+            # rejected texts that (re)declare several functions - also the same one twice, with different bodies - before the error
+            decls = [("f1a", "function f1(x) return integer is begin return x + 100; end;"), ("f1b", "function f1(x) return integer is begin return x + 200; end;"),
+                     ("f2a", "function f2(x, y) return integer is begin return x - y; end;"), ("f2b", "function f2(x) return integer is begin return x + 7; end;"),
+                     ("f3a", 'function f3() return string is begin return "new"; end;'), ("fra", "function fr(n) return integer is begin return f1(n); end;"),
+                     ("new", "function gnew(p) return integer is begin return f1(p) + 1; end;"), ("newb", "function gnew(p) return integer is begin return 2; end;")]
+            tails = ["a = 1 +;", "print f1(1) ;;)", 'function f3() return string is begin return 1 +; end;', "function gnew(p) return integer is begin return nosuch; end;"]
+            for (n1, d1) in decls:
+                for (n2, d2) in decls:
+                    for ti, tl in enumerate(tails):
+                        items.append(("multi:%s+%s+t%d" % (n1, n2, ti), d1 + "\n" + d2 + "\n" + tl))
+            for (n1, d1) in decls[:4]:
+                for (n2, d2) in decls[:4]:
+                    for (n3, d3) in decls[:6]:
+                        items.append(("multi3:%s+%s+%s" % (n1, n2, n3), d1 + "\n" + d2 + "\n" + d3 + "\n" + tails[1]))
             if tier == "thorough":
                 # chains of two rejected texts
                 base = [it for it in items if it[0].startswith("q9:") or it[0].startswith("q10:") or it[0].startswith("direct")]
